@@ -619,6 +619,143 @@ def verify_class(which, F, log, x, eqr, num):
     return None, claims
 
 
+# ====================================================================== a model object fitted twice
+
+
+def _snap(v):
+    """value snapshot of a kernel argument (taken when the kernel is called)"""
+    if isinstance(v, rnp.ndarray):
+        return ("array", v.shape, [_snap(x) for x in v.ravel().tolist()] if v.dtype == object else v.ravel().tolist())
+    if isinstance(v, E.Sym):
+        return ("sym", str(getattr(v, "e", None) if getattr(v, "e", None) is not None else getattr(v, "lf", v)))
+    if hasattr(v, "keys") and hasattr(v, "__getitem__"):
+        return ("mapping", sorted((repr(k), repr(v[k])) for k in v.keys()))
+    if isinstance(v, (list, tuple)):
+        return ("seq", [_snap(x) for x in v])
+    return ("value", repr(v))
+
+
+def _use(b):
+    """what a kernel may do with what it is handed: containers it can write to are written to"""
+    for k, v in b.items():
+        if hasattr(v, "keys") and hasattr(v, "__setitem__"):
+            try:
+                v[-(len(v) + 7)] = 0.5
+            except Exception:
+                pass
+
+
+def run_refit(c, col):
+    """one model object fitted to reads A and then to reads B must hand the kernels exactly what a fresh object fitted to B
+    hands them: nothing a fit computes may be carried into the next (the public classes are parameterised once and reused)"""
+    which = c["cls"]
+    if E.load is _ENGINE_LOAD:
+        E.reset_modules()
+    E.cfg.concrete_ints = True
+    site = {"denovo": "mchap.assemble.mcmc.DenovoMCMC.fit", "calling": "mchap.calling.classes.CallingMCMC.fit", "pedigree": "mchap.pedigree.classes.PedigreeCallingMCMC.fit"}[which.split("-")[0]]
+
+    def body(ctx):
+        F = E.fresh_real(ctx, "F", 0, 1)
+        log = []
+
+        def rec(real_fn, result, name):
+            def f(*a, **k):
+                b = _bind(real_fn, a, k)
+                log.append((name, {kk: _snap(vv) for kk, vv in b.items()}))
+                _use(b)
+                return result(b)
+            return f
+
+        if which == "denovo":
+            mc = E.load("mchap.assemble.mcmc")
+            hp = rnp.zeros((3, 3))
+            hp[1, 2] = 0.9375
+            mc._homozygosity_probabilities = rec(orig(mc, "_homozygosity_probabilities"), lambda b: hp, "_homozygosity_probabilities")
+            mc._denovo_assembler = rec(orig(mc, "_denovo_assembler"), lambda b: (rnp.zeros((1, b["steps"], 3, b["reads"].shape[1]), dtype=rnp.int8), rnp.zeros((1, b["steps"]))), "_denovo_assembler")
+            mc._read_mean_dist = lambda r: rnp.full((r.shape[1], 3), 1 / 3)
+            mc.sample_snv_alleles = lambda dist: rnp.zeros(len(dist), dtype=rnp.int8)
+            mc.seed_numba = lambda s_: log.append(("seed_numba", s_))
+            _np_seed_shim(mc, log)
+
+            def make():
+                return mc.DenovoMCMC(ploidy=3, n_alleles=[2, 3, 2], inbreeding=E.SymReal(F), steps=5, chains=2, fix_homozygous=0.875, recombination_step_probability=0.25,
+                                     partial_dosage_step_probability=0.375, dosage_step_probability=0.625, temperatures=(0.5, 0.25, 1.0), random_seed=11, llk_cache_threshold=77, n_intervals=2)
+
+            A = (rnp.full((3, 3, 3), 0.25), rnp.array([2, 1, 3]))
+            B = (rnp.full((2, 3, 3), 0.125), rnp.array([4, 5]))
+            fit = lambda o, x: o.fit(x[0], read_counts=x[1])  # noqa: E731
+        elif which.startswith("calling"):
+            cc = E.load("mchap.calling.classes")
+            haps = rnp.array([[0, 0], [0, 1], [1, 1]], dtype=rnp.int8)
+            freqs = rnp.array([0.5, 0.25, 0.25])
+            cc.mcmc_sampler = rec(orig(cc, "mcmc_sampler"), lambda b: (rnp.zeros((b["n_steps"], 3), dtype=rnp.int8), rnp.zeros(b["n_steps"])), "mcmc_sampler")
+            cc.greedy_caller = rec(orig(cc, "greedy_caller"), lambda b: rnp.array([0, 1, 2], dtype=rnp.int8), "greedy_caller")
+            cc.seed_numba = lambda s_: log.append(("seed_numba", s_))
+            _np_seed_shim(cc, log)
+
+            def make():
+                return cc.CallingMCMC(ploidy=3, haplotypes=haps, frequencies=freqs, inbreeding=E.SymReal(F), steps=5, chains=2, random_seed=11,
+                                      step_type="Gibbs" if which.endswith("gibbs") else "Metropolis-Hastings")
+
+            A = (rnp.full((3, 2, 2), 0.25), rnp.array([2, 1, 3]))
+            B = (rnp.full((2, 2, 2), 0.125), rnp.array([4, 5]))
+            fit = lambda o, x: o.fit(x[0], read_counts=x[1])  # noqa: E731
+        else:
+            pc = E.load("mchap.pedigree.classes")
+            haps = rnp.array([[0, 0], [0, 1], [1, 1]], dtype=rnp.int8)
+            freqs = rnp.array([0.5, 0.25, 0.25])
+            kw = dict(sample_ploidy=rnp.array([2, 4, 3]), sample_parents=rnp.array([[-1, -1], [-1, -1], [0, 1]]), gamete_tau=rnp.array([[1, 1], [2, 2], [1, 2]]),
+                      gamete_lambda=rnp.array([[0.0, 0.0], [0.125, 0.0], [0.0, 0.25]]), gamete_error=rnp.array([[0.01, 0.02], [0.03, 0.04], [0.05, 0.06]]))
+            pc.mcmc_sampler = rec(orig(pc, "mcmc_sampler"), lambda b: rnp.zeros((b["n_steps"], 3, 4), dtype=rnp.int16), "mcmc_sampler")
+            pc.greedy_caller = rec(orig(pc, "greedy_caller"), lambda b: rnp.zeros(int(b["ploidy"]), dtype=rnp.int8), "greedy_caller")
+            pc.seed_numba = lambda s_: log.append(("seed_numba", s_))
+            _np_seed_shim(pc, log)
+            Fs = [E.SymReal(F), E.SymReal(E.fresh_real(ctx, "F1", 0, 1)), E.SymReal(E.fresh_real(ctx, "F2", 0, 1))]
+
+            def make():
+                return pc.PedigreeCallingMCMC(sample_inbreeding=Fs, haplotypes=haps, frequencies=freqs, steps=5, annealing=3, chains=2, random_seed=11,
+                                              step_type="Gibbs" if which.endswith("gibbs") else "Metropolis-Hastings", swap_parental_alleles=True, **kw)
+
+            A = (rnp.full((3, 2, 2, 2), 0.25), rnp.array([[1, 2], [3, 0], [4, 5]]))
+            B = (rnp.full((3, 3, 2, 2), 0.125), rnp.array([[1, 1, 2], [3, 3, 0], [4, 4, 5]]))
+            fit = lambda o, x: o.fit(x[0], x[1])  # noqa: E731
+        obj = make()
+        fit(obj, A)
+        n1 = len(log)
+        fit(obj, B)
+        n2 = len(log)
+        fit(make(), B)
+        return log[n1:n2], log[n2:]
+
+    first = True
+    for pr in E.explore(body, stats=col.stats):
+        if pr.exc is not None:
+            col.fail(site, "exception", shape=dict(cls=which, refit=True), witness=dict(exc=repr(pr.exc)), desc="raised %r" % (pr.exc,))
+            continue
+        col.path()
+        if first:
+            col.reachable(pr.ctx)
+            first = False
+        second, fresh = pr.value
+        why = None
+        if [n for n, _ in second] != [n for n, _ in fresh]:
+            why = "a second fit of the same object makes the calls %s, a fresh object %s" % ([n for n, _ in second], [n for n, _ in fresh])
+        else:
+            for (n, a), (_, b) in zip(second, fresh):
+                if isinstance(a, dict):
+                    diff = [k for k in b if a.get(k) != b.get(k)] + [k for k in a if k not in b]
+                    if diff:
+                        why = "%s receives %s=%s on the second fit of an object, %s from a fresh object (same parameters, same reads)" % (n, diff[0], str(a.get(diff[0]))[:90], str(b.get(diff[0]))[:90])
+                        break
+                elif a != b:
+                    why = "%s(%r) on the second fit, %s(%r) from a fresh object" % (n, a, n, b)
+                    break
+        if why:
+            col.fail(site, "fit-history-dependence", shape=dict(cls=which), witness=dict(cls=which, why=why), desc=why, model=E.model_dict(E.prove(pr.ctx, False).model))
+        else:
+            col.ok("the kernels receive identical arguments from the second fit of a reused %s object and from a fresh one (containers they may write to included)" % which)
+
+
 # ====================================================================== replay: the same drivers on the REAL modules
 
 
@@ -745,6 +882,9 @@ def run_loop(c, col):
             cm.compound_step = rec_fn(real, r_step, log, "compound_step")
             fn = orig(cm, "mcmc_sampler")
             fn = getattr(fn, "py_func", fn)
+            if "cache" not in inspect.signature(fn).parameters:
+                # the harness addresses the sampler's cache switch by name: an interface it no longer matches is not a verdict on the code
+                raise E.Inconclusive("harness/interface mismatch: calling mcmc_sampler has no parameter 'cache' any more")
             gt, lt = fn(genotype_alleles=init, haplotypes=haps, reads=reads, read_counts=counts, inbreeding=E.SymReal(F), frequencies=freqs, n_steps=4,
                         cache=not which.endswith("nocache"), step_type=1)
             return F, log, dict(haps=haps, reads=reads, counts=counts, freqs=freqs, init=init, gt=gt, lt=lt)
